@@ -272,6 +272,23 @@ func evalError(whole string) bool {
 	return pan || len(e) > 0
 }
 
+// evalErrorEach: fed one statement at a time to one session, some statement ends in an error
+func evalErrorEach(stm []string) bool {
+	s := eval.NewState()
+	if sessionMaxDepth > 0 {
+		s.MaxDepth = sessionMaxDepth
+	}
+	var out bytes.Buffer
+	s.Out, s.LogOut, s.NoLog = &out, &out, true
+	for _, st := range stm {
+		_, pan, e, _ := repl.EvalOne(context.Background(), s, st, &out, repl.Options{All: true, ShowEval: true, NoColor: true})
+		if pan || len(e) > 0 {
+			return true
+		}
+	}
+	return false
+}
+
 var sessionMaxDepth int // 0: the default
 
 func runSession(chunks []string) (string, string, []string) {
@@ -326,8 +343,15 @@ func sessions(c *Ctx, s *st) {
 			continue
 		}
 		o0, g0, e0 := runSession([]string{whole})
-		if len(e0) > 0 || evalError(whole) { // the property is about error-free scripts (a run-time error ends an input early)
-			c.Count("script-with-errors-skipped")
+		if errWhole := len(e0) > 0 || evalError(whole); errWhole {
+			// the property is about error-free scripts (a run-time error ends an input early). A script is only set aside when it
+			// also fails fed one statement at a time: failing in ONE of the two ways of feeding it is a difference
+			if errEach := evalErrorEach(stm); errEach || macroRedefinedAfterUse(stm) {
+				c.Count("script-with-errors-skipped")
+				continue
+			}
+			c.Fail("chunked-differs-from-whole:error-only-when-evaluated-in-one-go", "SESSION "+Hx([]byte(strings.Join(stm, "\x00"))),
+				fmt.Sprintf("script %q: evaluated in one go it ends in an error (%v), fed one statement at a time it does not", stm, e0))
 			continue
 		}
 		s.sessions++
